@@ -77,19 +77,21 @@ def Abs.meaning (a : Abs) (id : Nat) : Abs :=
   else if id = 8024 ∧ a.wD = true then { a with hD := true, wD := false }
   else a
 
-/-- 224000 / 225000 forget the meaning node: the markers that follow need the 008023 / 008024 of THEIR definition (the
-    pass keeps the old node; a marker attached to its own meaning node is an attribute cycle, RecursionError) -/
+/-- every operator that announces a bit-map (222000 / 223000 / 224000 / 225000 / 232000) forgets the meaning nodes: the
+    stats markers that follow need the 008023 / 008024 that comes AFTER the last such operator (the pass keeps the old
+    node; with new back references reaching over it a marker can be attached to its own meaning node: an attribute
+    cycle, RecursionError in every renderer) -/
 def Abs.op (a : Abs) (id : Nat) : Option Abs :=
   let code := id / 1000
   let y := id % 1000
   if code = 201 ∨ code = 202 ∨ code = 207 ∨ code = 208 ∨ code = 205 ∨ code = 236 ∨ code = 237 then some a
   else if code = 206 then some { a with skip := decide (y ≠ 0) }
-  else if code = 222 then (if y = 0 then some { a with w := true, qN := false, qW := true, qP := false } else none)
-  else if code = 223 ∨ code = 232 then (if y = 0 then some { a with w := false } else some a.marker)
+  else if code = 222 then (if y = 0 then some { a with w := true, qN := false, qW := true, qP := false, h1 := false, hD := false } else none)
+  else if code = 223 ∨ code = 232 then (if y = 0 then some { a with w := false, h1 := false, hD := false } else some a.marker)
   else if code = 224 then
-    (if y = 0 then some { a with w := false, w1 := true, h1 := false } else if a.h1 then some a.marker else none)
+    (if y = 0 then some { a with w := false, w1 := true, h1 := false, hD := false } else if a.h1 then some a.marker else none)
   else if code = 225 then
-    (if y = 0 then some { a with w := false, wD := true, hD := false } else if a.hD then some a.marker else none)
+    (if y = 0 then some { a with w := false, wD := true, h1 := false, hD := false } else if a.hD then some a.marker else none)
   else if code = 235 then some { a with w := false }
   else none
 
